@@ -213,6 +213,12 @@ def string_section(b, tier):
 
 
 def other_section(b, tier):
+    for key in ("opt", "arr", "fvec"):
+        d = b.new(OTHER_INNERS[key], tags=["C09"])
+        d.derives = list(ARB)
+        d = b.new(OTHER_INNERS[key], tags=["C09"])
+        add_with_sanitizer(d, {"opt": "x.map(|v| v.wrapping_abs())", "arr": "{ let mut x = x; x.sort(); x }", "fvec": "{ let mut x = x; x.truncate(2); x }"}[key], "closure")
+        d.derives = list(ARB)
     for key in ("vec", "point", "gvec", "gord"):
         inner = OTHER_INNERS[key]
         for variant in range(2):
